@@ -70,11 +70,40 @@ func (c *Ctx) Eff(cfg string) *effects.Analysis {
 		return nil
 	}
 	a := effects.Run(p)
-	for _, pr := range a.Problems {
-		c.Set.Problem("[%s] %s", cfg, pr)
-	}
 	c.eff[cfg] = a
 	return a
+}
+
+// ScopeProblems adds the effect-analysis problems that can influence this
+// property's obligations: those arising in a function that some function named
+// by an obligation can reach (whole-program problems always count).
+func (c *Ctx) ScopeProblems() {
+	for _, cfg := range c.loaded {
+		a := c.eff[cfg]
+		if a == nil {
+			continue
+		}
+		var roots []*ssa.Function
+		for _, o := range c.Set.Obls {
+			if o.Config != cfg {
+				continue
+			}
+			parts := strings.SplitN(o.Key, "/", 3)
+			if len(parts) >= 2 {
+				if f := a.P.ByName[parts[1]]; f != nil {
+					roots = append(roots, f)
+				}
+			}
+		}
+		reach := a.P.Reachable(roots)
+		for i, pr := range a.Problems {
+			if f := a.ProblemFn[i]; f == nil || reach[f] || len(roots) == 0 {
+				c.Set.Problem("[%s] %s", cfg, pr)
+			} else {
+				c.Set.Note("[%s] not relevant to this property's obligations (arises in %s, which none of them reaches): %s", cfg, load.ShortName(f), pr)
+			}
+		}
+	}
 }
 
 func (c *Ctx) Guards(cfg string) *guards.Engine {
